@@ -290,7 +290,7 @@ def bfs_registration(depth, res, shard, only):
         def fire(ev):
             cur['ev'] = ev
             em.fire_event(ev, None)
-        ref = {'e1': [], 'e2': []}
+        ref = {'e1': [], 'e2': [], 'fired': set()}
         for op, ev, l in hist:
             if op == 'add':
                 em.add_listener(ev, listeners[l])
@@ -307,6 +307,7 @@ def bfs_registration(depth, res, shard, only):
                     return None, None, None     # (firing an event nobody listens to changes nothing)
                 fire(ev)
                 ref[ev] = [x for x in ref[ev] if x not in ONESHOT]
+                ref['fired'].add(ev)
             else:
                 if ref[ev] or ev in em.handlers:
                     em.del_listener(ev)
@@ -316,7 +317,8 @@ def bfs_registration(depth, res, shard, only):
         return em, ref, fire
 
     def canon(ref):
-        return (tuple(ref['e1']), tuple(ref['e2']))
+        # "this event has been delivered before" is part of the state: an implementation may cache what it delivered
+        return (tuple(ref['e1']), tuple(ref['e2']), tuple(sorted(ref.get('fired', ()))))
     seen = {canon({'e1': [], 'e2': []})}
     frontier = collections.deque([[]])
     nstates, ntrans, nhist = 1, 0, 0
